@@ -75,6 +75,33 @@ Lemma eval_NIf1 f e s c cns : eval (S f) e s (NIf c cns None) =
   end.
 Proof. reflexivity. Qed.
 
+Lemma eval_NAssign_op f e s name o v : P.is_compound o = true ->
+  eval (S f) e s (NAssign name (F.op_text o ++ [61%N]) v) =
+  match lookup e name with
+  | None => (OErr XUndefined, e, s)
+  | Some (l, _) =>
+      match eval f e s v with
+      | (OVal x, e1, s1) =>
+          match binop s1 (F.op_text o) (nth l (store s) VNil) x with
+          | (OVal r, s2) => (OVal VNil, e1, set_store s2 l r)
+          | (o', s2) => (o', e1, s2)
+          end
+      | other => other
+      end
+  end.
+Proof. destruct o; try discriminate; reflexivity. Qed.
+Lemma eval_NPostfix f e s name (up : bool) :
+  eval (S f) e s (NPostfix name (if up then [43; 43]%N else [45; 45]%N)) =
+  match lookup e name with
+  | None => (OErr XUndefined, e, s)
+  | Some (l, _) =>
+      match nth l (store s) VNil with
+      | VInt z => (OVal VNil, e, set_store s l (VInt (wrap64 (if up then z + 1 else z - 1))))
+      | _ => (OErr XType, e, s)
+      end
+  end.
+Proof. destruct up; reflexivity. Qed.
+
 Lemma eval_NBreak f e s : eval (S f) e s NBreak = (OBrk, e, s).
 Proof. reflexivity. Qed.
 Lemma eval_NContinue f e s : eval (S f) e s NContinue = (OCont, e, s).
@@ -335,7 +362,7 @@ Section Names.
     induction n as [n IH] using lt_wf_ind.
     destruct n as [|n]; [intros st rho e s f top lp r _ _ _ _ _ Hr; discriminate|].
     intros st rho e s f top lp r Hinv Hwf Hk Hf Hnf Hr. pose proof (sem_inv_env_ok rho e s Hinv) as Henv.
-    destruct st as [x|i x|x|c t el|c t|c b| |].
+    destruct st as [x|i x|i o x|i up|x|c t el|c t|c b| |].
     - (* x := e *)
       cbn [P.embed_stmt P.wf_stmt P.next_k P.sheight P.run_stmt] in *.
       apply andb_true_iff in Hwf. destruct Hwf as [_ Hwf].
@@ -354,6 +381,28 @@ Section Names.
         eexists. eexists. split; [reflexivity|].
         exact (sem_inv_set rho e s i v (conj Hl (conj Hne (conj Hst H))) Hi).
       + destruct xx; eexists; eexists; reflexivity.
+    - (* x += e *)
+      cbn [P.embed_stmt P.wf_stmt P.next_k P.sheight P.run_stmt] in *.
+      apply andb_true_iff in Hwf. destruct Hwf as [Hwf Ho]. apply andb_true_iff in Hwf. destruct Hwf as [Hi Hwf]. apply Nat.ltb_lt in Hi.
+      assert (Hnc : is_cmp o = false) by (destruct o; try discriminate; reflexivity).
+      rewrite (eval_NAssign_op f e s _ o _ Ho).
+      destruct Hinv as [Hl [Hne [Hst H]]]. destruct (H i Hi) as [Hlk Hval]. rewrite Hlk, Hval.
+      rewrite (sem_scalar names rho x f e s Hf Hwf Henv).
+      destruct (F.sev rho x) as [v|xx].
+      2:{ inversion Hr; subst r. cbn [lift stmt_concl]. destruct xx; eexists; eexists; reflexivity. }
+      cbn [lift]. rewrite (binop_inj s o _ v Hnc).
+      destruct (F.sbin o (nth i rho F.VNil) v) as [rv|xx]; cbn [P.of_sev] in Hr; inversion Hr; subst r; cbn [lift stmt_concl].
+      + eexists. eexists. split; [reflexivity|].
+        exact (sem_inv_set rho e s i rv (conj Hl (conj Hne (conj Hst H))) Hi).
+      + destruct xx; eexists; eexists; reflexivity.
+    - (* x++ / x-- *)
+      cbn [P.embed_stmt P.wf_stmt P.next_k P.sheight P.run_stmt] in *. apply Nat.ltb_lt in Hwf.
+      rewrite eval_NPostfix.
+      destruct Hinv as [Hl [Hne [Hst H]]]. destruct (H i Hwf) as [Hlk Hval]. rewrite Hlk, Hval.
+      destruct (nth i rho F.VNil) as [|b|z|t0] eqn:En; cbn [inj F.sbin P.of_sev] in *; inversion Hr; subst r; cbn [lift stmt_concl];
+        try (eexists; eexists; reflexivity).
+      destruct up; (eexists; eexists; split; [reflexivity|]);
+        exact (sem_inv_set rho e s i _ (conj Hl (conj Hne (conj Hst H))) Hwf).
     - (* e *)
       cbn [P.embed_stmt P.wf_stmt P.next_k P.sheight P.run_stmt] in *.
       rewrite (sem_scalar names rho x (S f) e s ltac:(lia) Hwf Henv).
@@ -451,7 +500,7 @@ Section Names.
   Proof.
     induction l as [|st r IH]; intros k acc; [reflexivity|].
     rewrite PF.embed_stmts_cons. cbn [fold_left].
-    destruct st as [x|i x|x|c t el|c t|c b| |]; cbn [P.embed_stmt]; try apply IH.
+    destruct st as [x|i x|i o x|i up|x|c t el|c t|c b| |]; cbn [P.embed_stmt]; try apply IH.
     destruct x; cbn [F.embed]; apply IH.
   Qed.
 
